@@ -191,6 +191,10 @@ func c07Alphabet(rs []byte) []string {
 		alpha = append(alpha, "\n", "\n", "\n\n", "p", "\r\n")
 	case len(rs) == 1:
 		alpha = append(alpha, s, s)
+		if rs[0] >= 0x80 {
+			// a non-UTF-8 separator byte among other invalid bytes and multi-byte characters
+			alpha = append(alpha, "\xfe", "\x80", "\xc3\xa9", string([]byte{rs[0] ^ 1}))
+		}
 	case utf8.RuneCountInString(s) == 1:
 		alpha = append(alpha, s, s)
 		for i := range rs { // and its single bytes: partial sequences
